@@ -1828,6 +1828,267 @@ let unique toptr length0 tolength =
     kbind (kupd tolength Z0 (Z.add (snd r) (Zpos XH))) (fun tl -> KOk
       ((fst r), tl)))
 
+(** val reduce_nonlocal_outstartsstops :
+    z list -> z list -> z list -> z -> z -> (z list * z list) kres **)
+
+let reduce_nonlocal_outstartsstops outstarts outstops distincts lendistincts outlength =
+  let maxcount =
+    if Z.eqb outlength Z0 then Z0 else Z.div lendistincts outlength
+  in
+  kfor Z0 outlength (fun k st ->
+    let (os, op) = st in
+    let start = Z.mul k maxcount in
+    kbind
+      (kwhile (Z.to_nat maxcount) (fun stop ->
+        (&&) (Z.ltb stop (Z.add start maxcount))
+          (match kget distincts stop with
+           | KOk d -> negb (Z.eqb d (Zneg XH))
+           | _ -> true)) (fun stop ->
+        kbind (kget distincts stop) (fun _ -> KOk (Z.add stop (Zpos XH))))
+        start) (fun stop ->
+      if Z.eqb stop start
+      then let a = Z0 in
+           let b = Z0 in
+           kbind (kupd os k a) (fun os' ->
+             kbind (kupd op k b) (fun op' -> KOk (os', op')))
+      else kbind (kupd os k start) (fun os' ->
+             kbind (kupd op k stop) (fun op' -> KOk (os', op')))))
+    (outstarts, outstops)
+
+(** val numpyArray_copy : z list -> z list -> z -> z list kres **)
+
+let numpyArray_copy toptr fromptr len =
+  kfill Z0 len (fun i -> kget fromptr i) toptr
+
+(** val numpyArray_contiguous_copy :
+    z list -> z list -> z -> z -> z list -> z list kres **)
+
+let numpyArray_contiguous_copy toptr fromptr len stride pos =
+  kfor Z0 len (fun i out ->
+    kbind (kget pos i) (fun p ->
+      kfor Z0 stride (fun b out0 ->
+        kbind (kget fromptr (Z.add p b)) (fun x ->
+          kupd out0 (Z.add (Z.mul i stride) b) x)) out)) toptr
+
+(** val numpyArray_getitem_next_null :
+    z list -> z list -> z -> z -> z list -> z list kres **)
+
+let numpyArray_getitem_next_null toptr fromptr len stride pos =
+  kfor Z0 len (fun i out ->
+    kbind (kget pos i) (fun p ->
+      kfor Z0 stride (fun b out0 ->
+        kbind (kget fromptr (Z.add (Z.mul p stride) b)) (fun x ->
+          kupd out0 (Z.add (Z.mul i stride) b) x)) out)) toptr
+
+(** val numpyArray_fill_tocomplex :
+    z list -> z -> z list -> z -> z list kres **)
+
+let numpyArray_fill_tocomplex toptr tooffset fromptr length0 =
+  kfor Z0 length0 (fun i out ->
+    kbind (kget fromptr i) (fun x ->
+      kbind (kupd out (Z.add tooffset (Z.mul (Zpos (XO XH)) i)) x)
+        (fun out0 ->
+        kupd out0 (Z.add (Z.add tooffset (Z.mul (Zpos (XO XH)) i)) (Zpos XH))
+          Z0))) toptr
+
+(** val numpyArray_fill_fromcomplex :
+    ity -> z list -> z -> z list -> z -> z list kres **)
+
+let numpyArray_fill_fromcomplex tTO toptr tooffset fromptr length0 =
+  kfill tooffset length0 (fun i ->
+    kbind (kget fromptr (Z.mul i (Zpos (XO XH)))) (fun x -> KOk (wrap tTO x)))
+    toptr
+
+(** val numpyArray_rearrange_shifted :
+    z list -> z list -> z -> z list -> z -> z list -> z list -> z list kres **)
+
+let numpyArray_rearrange_shifted toptr shifts length0 offsets offsetslength parents starts =
+  kbind
+    (kfor Z0 (Z.sub offsetslength (Zpos XH)) (fun i st ->
+      kbind (kget offsets (Z.add i (Zpos XH))) (fun o3 ->
+        kbind (kget offsets i) (fun o4 ->
+          kfor Z0 (Z.sub o3 o4) (fun _ st0 ->
+            let (out, k) = st0 in
+            kbind (kget out k) (fun cur ->
+              kbind (kupd out k (Z.add cur o4)) (fun out' -> KOk (out',
+                (Z.add k (Zpos XH)))))) st))) (toptr, Z0)) (fun r ->
+    kfor Z0 length0 (fun i out ->
+      kbind (kget parents i) (fun parent ->
+        kbind (kget starts parent) (fun start ->
+          kbind (kget out i) (fun cur ->
+            kbind (kget shifts cur) (fun sh ->
+              kupd out i (Z.sub (Z.add cur sh) start)))))) (fst r))
+
+(** val numpyArray_subrange_equal :
+    z list -> z list -> z list -> z -> z list -> z list kres **)
+
+let numpyArray_subrange_equal tmpptr fromstarts fromstops length0 toequal =
+  kbind
+    (kfor Z0 (Z.sub length0 (Zpos XH)) (fun i differ ->
+      kbind (kget fromstarts i) (fun si ->
+        kbind (kget fromstops i) (fun ei ->
+          let leftlen = Z.sub ei si in
+          kfor (Z.add i (Zpos XH)) (Z.sub length0 (Zpos XH))
+            (fun ii differ0 ->
+            kbind (kget fromstarts ii) (fun sii ->
+              kbind (kget fromstops ii) (fun eii ->
+                let rightlen = Z.sub eii sii in
+                if Z.eqb leftlen rightlen
+                then kmap fst
+                       (kwhile (Z.to_nat leftlen) (fun s ->
+                         (&&) (negb (fst s)) (Z.ltb (snd s) leftlen))
+                         (fun s ->
+                         let j = snd s in
+                         kbind (kget tmpptr (Z.add si j)) (fun a ->
+                           kbind (kget tmpptr (Z.add sii j)) (fun b -> KOk
+                             ((negb (Z.eqb a b)), (Z.add j (Zpos XH))))))
+                         (false, Z0))
+                else KOk differ0))) differ))) true) (fun differ ->
+    kupd toequal Z0 (if differ then Z0 else Zpos XH))
+
+(** val reduce_sum_complex :
+    z list -> z list -> z list -> z -> z -> z list kres **)
+
+let reduce_sum_complex toptr fromptr parents lenparents outlength =
+  kbind
+    (kfor Z0 outlength (fun i out ->
+      kbind (kupd out (Z.mul i (Zpos (XO XH))) Z0) (fun out0 ->
+        kupd out0 (Z.add (Z.mul i (Zpos (XO XH))) (Zpos XH)) Z0)) toptr)
+    (fun out0 ->
+    kfor Z0 lenparents (fun i out ->
+      kbind (kget parents i) (fun p ->
+        kbind (kget fromptr (Z.mul i (Zpos (XO XH)))) (fun re ->
+          kbind (kget fromptr (Z.add (Z.mul i (Zpos (XO XH))) (Zpos XH)))
+            (fun im ->
+            kbind (kget out (Z.mul p (Zpos (XO XH)))) (fun a ->
+              kbind (kupd out (Z.mul p (Zpos (XO XH))) (Z.add a re))
+                (fun out1 ->
+                kbind (kget out1 (Z.add (Z.mul p (Zpos (XO XH))) (Zpos XH)))
+                  (fun b ->
+                  kupd out1 (Z.add (Z.mul p (Zpos (XO XH))) (Zpos XH))
+                    (Z.add b im)))))))) out0)
+
+(** val reduce_prod_complex :
+    z list -> z list -> z list -> z -> z -> z list kres **)
+
+let reduce_prod_complex toptr fromptr parents lenparents outlength =
+  kbind
+    (kfor Z0 outlength (fun i out ->
+      kbind (kupd out (Z.mul i (Zpos (XO XH))) (Zpos XH)) (fun out0 ->
+        kupd out0 (Z.add (Z.mul i (Zpos (XO XH))) (Zpos XH)) Z0)) toptr)
+    (fun out0 ->
+    kfor Z0 lenparents (fun i out ->
+      kbind (kget parents i) (fun p ->
+        kbind (kget fromptr (Z.mul i (Zpos (XO XH)))) (fun re ->
+          kbind (kget fromptr (Z.add (Z.mul i (Zpos (XO XH))) (Zpos XH)))
+            (fun im ->
+            kbind (kget out (Z.mul p (Zpos (XO XH)))) (fun a ->
+              kbind (kget out (Z.add (Z.mul p (Zpos (XO XH))) (Zpos XH)))
+                (fun b ->
+                kbind
+                  (kupd out (Z.mul p (Zpos (XO XH)))
+                    (Z.sub (Z.mul a re) (Z.mul b im))) (fun out1 ->
+                  kupd out1 (Z.add (Z.mul p (Zpos (XO XH))) (Zpos XH))
+                    (Z.add (Z.mul a im) (Z.mul b re))))))))) out0)
+
+(** val reduce_minmax_complex :
+    bool -> z -> z list -> z list -> z list -> z -> z -> z list kres **)
+
+let reduce_minmax_complex lt identity toptr fromptr parents lenparents outlength =
+  let better = fun x y a b ->
+    if lt
+    then (||) (Z.ltb x a) ((&&) (Z.eqb x a) (Z.ltb y b))
+    else (||) (Z.ltb a x) ((&&) (Z.eqb x a) (Z.ltb b y))
+  in
+  kbind
+    (kfor Z0 outlength (fun i out ->
+      kbind (kupd out (Z.mul i (Zpos (XO XH))) identity) (fun out0 ->
+        kupd out0 (Z.add (Z.mul i (Zpos (XO XH))) (Zpos XH)) Z0)) toptr)
+    (fun out0 ->
+    kfor Z0 lenparents (fun i out ->
+      kbind (kget parents i) (fun p ->
+        kbind (kget fromptr (Z.mul i (Zpos (XO XH)))) (fun x ->
+          kbind (kget fromptr (Z.add (Z.mul i (Zpos (XO XH))) (Zpos XH)))
+            (fun y ->
+            kbind (kget out (Z.mul p (Zpos (XO XH)))) (fun a ->
+              kbind (kget out (Z.add (Z.mul p (Zpos (XO XH))) (Zpos XH)))
+                (fun b ->
+                if better x y a b
+                then kbind (kupd out (Z.mul p (Zpos (XO XH))) x) (fun out1 ->
+                       kupd out1 (Z.add (Z.mul p (Zpos (XO XH))) (Zpos XH)) y)
+                else KOk out)))))) out0)
+
+(** val reduce_arg_complex :
+    bool -> z list -> z list -> z list -> z -> z -> z list kres **)
+
+let reduce_arg_complex lt toptr fromptr parents lenparents outlength =
+  kbind (kfill Z0 outlength (fun _ -> KOk (Zneg XH)) toptr) (fun out0 ->
+    kfor Z0 lenparents (fun i out ->
+      kbind (kget parents i) (fun p ->
+        kbind (kget out p) (fun cur ->
+          if Z.eqb cur (Zneg XH)
+          then kupd out p i
+          else kbind (kget fromptr (Z.mul i (Zpos (XO XH)))) (fun x ->
+                 kbind (kget fromptr (Z.mul cur (Zpos (XO XH)))) (fun a ->
+                   if if lt then Z.ltb x a else Z.ltb a x
+                   then kupd out p i
+                   else if Z.eqb x a
+                        then kbind
+                               (kget fromptr
+                                 (Z.add (Z.mul i (Zpos (XO XH))) (Zpos XH)))
+                               (fun y ->
+                               kbind
+                                 (kget fromptr
+                                   (Z.add (Z.mul cur (Zpos (XO XH))) (Zpos
+                                     XH))) (fun b ->
+                                 if if lt then Z.ltb y b else Z.ltb b y
+                                 then kupd out p i
+                                 else KOk out))
+                        else KOk out))))) out0)
+
+(** val reduce_bool_complex :
+    ity -> z -> (z -> bool -> z) -> z list -> z list -> z list -> z -> z -> z
+    list kres **)
+
+let reduce_bool_complex tO init step toptr fromptr parents lenparents outlength =
+  kbind (kfill Z0 outlength (fun _ -> KOk (wrap tO init)) toptr) (fun out0 ->
+    kfor Z0 lenparents (fun i out ->
+      kbind (kget parents i) (fun p ->
+        kbind (kget fromptr (Z.mul i (Zpos (XO XH)))) (fun re ->
+          kbind (kget fromptr (Z.add (Z.mul i (Zpos (XO XH))) (Zpos XH)))
+            (fun im ->
+            kbind (kget out p) (fun cur ->
+              kupd out p
+                (wrap tO
+                  (step cur ((||) (negb (Z.eqb re Z0)) (negb (Z.eqb im Z0))))))))))
+      out0)
+
+(** val reduce_countnonzero_complex :
+    z list -> z list -> z list -> z -> z -> z list kres **)
+
+let reduce_countnonzero_complex =
+  reduce_bool_complex i64 Z0 (fun cur nz ->
+    Z.add cur (if nz then Zpos XH else Z0))
+
+(** val reduce_sum_bool_complex :
+    z list -> z list -> z list -> z -> z -> z list kres **)
+
+let reduce_sum_bool_complex =
+  reduce_bool_complex TB Z0 (fun cur nz ->
+    if (&&) (Z.eqb cur Z0) (negb nz) then Z0 else Zpos XH)
+
+(** val reduce_prod_bool_complex :
+    z list -> z list -> z list -> z -> z -> z list kres **)
+
+let reduce_prod_bool_complex =
+  reduce_bool_complex TB (Zpos XH) (fun cur nz ->
+    if (||) (Z.eqb cur Z0) (negb nz) then Z0 else Zpos XH)
+
+(** val content_reduce_zeroparents : z list -> z -> z list kres **)
+
+let content_reduce_zeroparents toparents length0 =
+  kfill Z0 length0 (fun _ -> KOk Z0) toparents
+
 type val0 =
 | VI of z
 | VL of z list
@@ -1914,6 +2175,24 @@ type kname =
 | K_UnionArray_fillindex
 | K_ListArray_fill
 | K_unique
+| K_reduce_nonlocal_outstartsstops
+| K_NumpyArray_copy
+| K_NumpyArray_contiguous_copy
+| K_NumpyArray_getitem_next_null
+| K_NumpyArray_fill_tocomplex
+| K_NumpyArray_fill_fromcomplex
+| K_NumpyArray_rearrange_shifted
+| K_NumpyArray_subrange_equal
+| K_reduce_sum_complex
+| K_reduce_prod_complex
+| K_reduce_min_complex
+| K_reduce_max_complex
+| K_reduce_argmin_complex
+| K_reduce_argmax_complex
+| K_reduce_countnonzero_complex
+| K_reduce_sum_bool_complex
+| K_reduce_prod_bool_complex
+| K_content_reduce_zeroparents
 
 (** val ty : ity list -> nat -> ity **)
 
@@ -4784,5 +5063,652 @@ let run k ts a =
                        | [] -> o2 (unique x n tl)
                        | _ :: _ -> KErr MBadArgs)
                     | _ -> KErr MBadArgs))
+              | _ -> KErr MBadArgs))
+        | _ -> KErr MBadArgs))
+  | K_reduce_nonlocal_outstartsstops ->
+    (match a with
+     | [] -> KErr MBadArgs
+     | v :: l ->
+       (match v with
+        | VL os ->
+          (match l with
+           | [] -> KErr MBadArgs
+           | v0 :: l0 ->
+             (match v0 with
+              | VL op ->
+                (match l0 with
+                 | [] -> KErr MBadArgs
+                 | v1 :: l1 ->
+                   (match v1 with
+                    | VL d ->
+                      (match l1 with
+                       | [] -> KErr MBadArgs
+                       | v2 :: l2 ->
+                         (match v2 with
+                          | VI ld ->
+                            (match l2 with
+                             | [] -> KErr MBadArgs
+                             | v3 :: l3 ->
+                               (match v3 with
+                                | VL _ ->
+                                  (match l3 with
+                                   | [] -> KErr MBadArgs
+                                   | v4 :: l5 ->
+                                     (match v4 with
+                                      | VI ol ->
+                                        (match l5 with
+                                         | [] ->
+                                           o2
+                                             (reduce_nonlocal_outstartsstops
+                                               os op d ld ol)
+                                         | _ :: _ -> KErr MBadArgs)
+                                      | _ -> KErr MBadArgs))
+                                | _ -> KErr MBadArgs))
+                          | _ -> KErr MBadArgs))
+                    | _ -> KErr MBadArgs))
+              | _ -> KErr MBadArgs))
+        | _ -> KErr MBadArgs))
+  | K_NumpyArray_copy ->
+    (match a with
+     | [] -> KErr MBadArgs
+     | v :: l ->
+       (match v with
+        | VL x ->
+          (match l with
+           | [] -> KErr MBadArgs
+           | v0 :: l0 ->
+             (match v0 with
+              | VL f ->
+                (match l0 with
+                 | [] -> KErr MBadArgs
+                 | v1 :: l1 ->
+                   (match v1 with
+                    | VI n ->
+                      (match l1 with
+                       | [] -> o1 (numpyArray_copy x f n)
+                       | _ :: _ -> KErr MBadArgs)
+                    | _ -> KErr MBadArgs))
+              | _ -> KErr MBadArgs))
+        | _ -> KErr MBadArgs))
+  | K_NumpyArray_contiguous_copy ->
+    (match a with
+     | [] -> KErr MBadArgs
+     | v :: l ->
+       (match v with
+        | VL x ->
+          (match l with
+           | [] -> KErr MBadArgs
+           | v0 :: l0 ->
+             (match v0 with
+              | VL f ->
+                (match l0 with
+                 | [] -> KErr MBadArgs
+                 | v1 :: l1 ->
+                   (match v1 with
+                    | VI n ->
+                      (match l1 with
+                       | [] -> KErr MBadArgs
+                       | v2 :: l2 ->
+                         (match v2 with
+                          | VI st ->
+                            (match l2 with
+                             | [] -> KErr MBadArgs
+                             | v3 :: l3 ->
+                               (match v3 with
+                                | VL pos ->
+                                  (match l3 with
+                                   | [] ->
+                                     o1
+                                       (numpyArray_contiguous_copy x f n st
+                                         pos)
+                                   | _ :: _ -> KErr MBadArgs)
+                                | _ -> KErr MBadArgs))
+                          | _ -> KErr MBadArgs))
+                    | _ -> KErr MBadArgs))
+              | _ -> KErr MBadArgs))
+        | _ -> KErr MBadArgs))
+  | K_NumpyArray_getitem_next_null ->
+    (match a with
+     | [] -> KErr MBadArgs
+     | v :: l ->
+       (match v with
+        | VL x ->
+          (match l with
+           | [] -> KErr MBadArgs
+           | v0 :: l0 ->
+             (match v0 with
+              | VL f ->
+                (match l0 with
+                 | [] -> KErr MBadArgs
+                 | v1 :: l1 ->
+                   (match v1 with
+                    | VI n ->
+                      (match l1 with
+                       | [] -> KErr MBadArgs
+                       | v2 :: l2 ->
+                         (match v2 with
+                          | VI st ->
+                            (match l2 with
+                             | [] -> KErr MBadArgs
+                             | v3 :: l3 ->
+                               (match v3 with
+                                | VL pos ->
+                                  (match l3 with
+                                   | [] ->
+                                     o1
+                                       (numpyArray_getitem_next_null x f n st
+                                         pos)
+                                   | _ :: _ -> KErr MBadArgs)
+                                | _ -> KErr MBadArgs))
+                          | _ -> KErr MBadArgs))
+                    | _ -> KErr MBadArgs))
+              | _ -> KErr MBadArgs))
+        | _ -> KErr MBadArgs))
+  | K_NumpyArray_fill_tocomplex ->
+    (match a with
+     | [] -> KErr MBadArgs
+     | v :: l ->
+       (match v with
+        | VL x ->
+          (match l with
+           | [] -> KErr MBadArgs
+           | v0 :: l0 ->
+             (match v0 with
+              | VI off ->
+                (match l0 with
+                 | [] -> KErr MBadArgs
+                 | v1 :: l1 ->
+                   (match v1 with
+                    | VL f ->
+                      (match l1 with
+                       | [] -> KErr MBadArgs
+                       | v2 :: l2 ->
+                         (match v2 with
+                          | VI n ->
+                            (match l2 with
+                             | [] -> o1 (numpyArray_fill_tocomplex x off f n)
+                             | _ :: _ -> KErr MBadArgs)
+                          | _ -> KErr MBadArgs))
+                    | _ -> KErr MBadArgs))
+              | _ -> KErr MBadArgs))
+        | _ -> KErr MBadArgs))
+  | K_NumpyArray_fill_fromcomplex ->
+    (match a with
+     | [] -> KErr MBadArgs
+     | v :: l ->
+       (match v with
+        | VL x ->
+          (match l with
+           | [] -> KErr MBadArgs
+           | v0 :: l0 ->
+             (match v0 with
+              | VI off ->
+                (match l0 with
+                 | [] -> KErr MBadArgs
+                 | v1 :: l1 ->
+                   (match v1 with
+                    | VL f ->
+                      (match l1 with
+                       | [] -> KErr MBadArgs
+                       | v2 :: l2 ->
+                         (match v2 with
+                          | VI n ->
+                            (match l2 with
+                             | [] ->
+                               o1
+                                 (numpyArray_fill_fromcomplex (ty ts O) x off
+                                   f n)
+                             | _ :: _ -> KErr MBadArgs)
+                          | _ -> KErr MBadArgs))
+                    | _ -> KErr MBadArgs))
+              | _ -> KErr MBadArgs))
+        | _ -> KErr MBadArgs))
+  | K_NumpyArray_rearrange_shifted ->
+    (match a with
+     | [] -> KErr MBadArgs
+     | v :: l ->
+       (match v with
+        | VL x ->
+          (match l with
+           | [] -> KErr MBadArgs
+           | v0 :: l0 ->
+             (match v0 with
+              | VL sh ->
+                (match l0 with
+                 | [] -> KErr MBadArgs
+                 | v1 :: l1 ->
+                   (match v1 with
+                    | VI n ->
+                      (match l1 with
+                       | [] -> KErr MBadArgs
+                       | v2 :: l2 ->
+                         (match v2 with
+                          | VL off ->
+                            (match l2 with
+                             | [] -> KErr MBadArgs
+                             | v3 :: l3 ->
+                               (match v3 with
+                                | VI ol ->
+                                  (match l3 with
+                                   | [] -> KErr MBadArgs
+                                   | v4 :: l4 ->
+                                     (match v4 with
+                                      | VL p ->
+                                        (match l4 with
+                                         | [] -> KErr MBadArgs
+                                         | v5 :: l5 ->
+                                           (match v5 with
+                                            | VI _ ->
+                                              (match l5 with
+                                               | [] -> KErr MBadArgs
+                                               | v6 :: l6 ->
+                                                 (match v6 with
+                                                  | VL st ->
+                                                    (match l6 with
+                                                     | [] -> KErr MBadArgs
+                                                     | v7 :: l7 ->
+                                                       (match v7 with
+                                                        | VI _ ->
+                                                          (match l7 with
+                                                           | [] ->
+                                                             o1
+                                                               (numpyArray_rearrange_shifted
+                                                                 x sh n off
+                                                                 ol p st)
+                                                           | _ :: _ ->
+                                                             KErr MBadArgs)
+                                                        | _ -> KErr MBadArgs))
+                                                  | _ -> KErr MBadArgs))
+                                            | _ -> KErr MBadArgs))
+                                      | _ -> KErr MBadArgs))
+                                | _ -> KErr MBadArgs))
+                          | _ -> KErr MBadArgs))
+                    | _ -> KErr MBadArgs))
+              | _ -> KErr MBadArgs))
+        | _ -> KErr MBadArgs))
+  | K_NumpyArray_subrange_equal ->
+    (match a with
+     | [] -> KErr MBadArgs
+     | v :: l ->
+       (match v with
+        | VL t ->
+          (match l with
+           | [] -> KErr MBadArgs
+           | v0 :: l0 ->
+             (match v0 with
+              | VL s ->
+                (match l0 with
+                 | [] -> KErr MBadArgs
+                 | v1 :: l1 ->
+                   (match v1 with
+                    | VL e ->
+                      (match l1 with
+                       | [] -> KErr MBadArgs
+                       | v2 :: l2 ->
+                         (match v2 with
+                          | VI n ->
+                            (match l2 with
+                             | [] -> KErr MBadArgs
+                             | v3 :: l3 ->
+                               (match v3 with
+                                | VL eq ->
+                                  (match l3 with
+                                   | [] ->
+                                     o2
+                                       (kmap (fun r -> (t, r))
+                                         (numpyArray_subrange_equal t s e n
+                                           eq))
+                                   | _ :: _ -> KErr MBadArgs)
+                                | _ -> KErr MBadArgs))
+                          | _ -> KErr MBadArgs))
+                    | _ -> KErr MBadArgs))
+              | _ -> KErr MBadArgs))
+        | _ -> KErr MBadArgs))
+  | K_reduce_sum_complex ->
+    (match a with
+     | [] -> KErr MBadArgs
+     | v :: l ->
+       (match v with
+        | VL x ->
+          (match l with
+           | [] -> KErr MBadArgs
+           | v0 :: l0 ->
+             (match v0 with
+              | VL f ->
+                (match l0 with
+                 | [] -> KErr MBadArgs
+                 | v1 :: l1 ->
+                   (match v1 with
+                    | VL p ->
+                      (match l1 with
+                       | [] -> KErr MBadArgs
+                       | v2 :: l2 ->
+                         (match v2 with
+                          | VI lp ->
+                            (match l2 with
+                             | [] -> KErr MBadArgs
+                             | v3 :: l3 ->
+                               (match v3 with
+                                | VI ol ->
+                                  (match l3 with
+                                   | [] -> o1 (reduce_sum_complex x f p lp ol)
+                                   | _ :: _ -> KErr MBadArgs)
+                                | _ -> KErr MBadArgs))
+                          | _ -> KErr MBadArgs))
+                    | _ -> KErr MBadArgs))
+              | _ -> KErr MBadArgs))
+        | _ -> KErr MBadArgs))
+  | K_reduce_prod_complex ->
+    (match a with
+     | [] -> KErr MBadArgs
+     | v :: l ->
+       (match v with
+        | VL x ->
+          (match l with
+           | [] -> KErr MBadArgs
+           | v0 :: l0 ->
+             (match v0 with
+              | VL f ->
+                (match l0 with
+                 | [] -> KErr MBadArgs
+                 | v1 :: l1 ->
+                   (match v1 with
+                    | VL p ->
+                      (match l1 with
+                       | [] -> KErr MBadArgs
+                       | v2 :: l2 ->
+                         (match v2 with
+                          | VI lp ->
+                            (match l2 with
+                             | [] -> KErr MBadArgs
+                             | v3 :: l3 ->
+                               (match v3 with
+                                | VI ol ->
+                                  (match l3 with
+                                   | [] ->
+                                     o1 (reduce_prod_complex x f p lp ol)
+                                   | _ :: _ -> KErr MBadArgs)
+                                | _ -> KErr MBadArgs))
+                          | _ -> KErr MBadArgs))
+                    | _ -> KErr MBadArgs))
+              | _ -> KErr MBadArgs))
+        | _ -> KErr MBadArgs))
+  | K_reduce_min_complex ->
+    (match a with
+     | [] -> KErr MBadArgs
+     | v :: l ->
+       (match v with
+        | VL x ->
+          (match l with
+           | [] -> KErr MBadArgs
+           | v0 :: l0 ->
+             (match v0 with
+              | VL f ->
+                (match l0 with
+                 | [] -> KErr MBadArgs
+                 | v1 :: l1 ->
+                   (match v1 with
+                    | VL p ->
+                      (match l1 with
+                       | [] -> KErr MBadArgs
+                       | v2 :: l2 ->
+                         (match v2 with
+                          | VI lp ->
+                            (match l2 with
+                             | [] -> KErr MBadArgs
+                             | v3 :: l3 ->
+                               (match v3 with
+                                | VI ol ->
+                                  (match l3 with
+                                   | [] -> KErr MBadArgs
+                                   | v4 :: l4 ->
+                                     (match v4 with
+                                      | VI idn ->
+                                        (match l4 with
+                                         | [] ->
+                                           o1
+                                             (reduce_minmax_complex true idn
+                                               x f p lp ol)
+                                         | _ :: _ -> KErr MBadArgs)
+                                      | _ -> KErr MBadArgs))
+                                | _ -> KErr MBadArgs))
+                          | _ -> KErr MBadArgs))
+                    | _ -> KErr MBadArgs))
+              | _ -> KErr MBadArgs))
+        | _ -> KErr MBadArgs))
+  | K_reduce_max_complex ->
+    (match a with
+     | [] -> KErr MBadArgs
+     | v :: l ->
+       (match v with
+        | VL x ->
+          (match l with
+           | [] -> KErr MBadArgs
+           | v0 :: l0 ->
+             (match v0 with
+              | VL f ->
+                (match l0 with
+                 | [] -> KErr MBadArgs
+                 | v1 :: l1 ->
+                   (match v1 with
+                    | VL p ->
+                      (match l1 with
+                       | [] -> KErr MBadArgs
+                       | v2 :: l2 ->
+                         (match v2 with
+                          | VI lp ->
+                            (match l2 with
+                             | [] -> KErr MBadArgs
+                             | v3 :: l3 ->
+                               (match v3 with
+                                | VI ol ->
+                                  (match l3 with
+                                   | [] -> KErr MBadArgs
+                                   | v4 :: l4 ->
+                                     (match v4 with
+                                      | VI idn ->
+                                        (match l4 with
+                                         | [] ->
+                                           o1
+                                             (reduce_minmax_complex false idn
+                                               x f p lp ol)
+                                         | _ :: _ -> KErr MBadArgs)
+                                      | _ -> KErr MBadArgs))
+                                | _ -> KErr MBadArgs))
+                          | _ -> KErr MBadArgs))
+                    | _ -> KErr MBadArgs))
+              | _ -> KErr MBadArgs))
+        | _ -> KErr MBadArgs))
+  | K_reduce_argmin_complex ->
+    (match a with
+     | [] -> KErr MBadArgs
+     | v :: l ->
+       (match v with
+        | VL x ->
+          (match l with
+           | [] -> KErr MBadArgs
+           | v0 :: l0 ->
+             (match v0 with
+              | VL f ->
+                (match l0 with
+                 | [] -> KErr MBadArgs
+                 | v1 :: l1 ->
+                   (match v1 with
+                    | VL p ->
+                      (match l1 with
+                       | [] -> KErr MBadArgs
+                       | v2 :: l2 ->
+                         (match v2 with
+                          | VI lp ->
+                            (match l2 with
+                             | [] -> KErr MBadArgs
+                             | v3 :: l3 ->
+                               (match v3 with
+                                | VI ol ->
+                                  (match l3 with
+                                   | [] ->
+                                     o1 (reduce_arg_complex true x f p lp ol)
+                                   | _ :: _ -> KErr MBadArgs)
+                                | _ -> KErr MBadArgs))
+                          | _ -> KErr MBadArgs))
+                    | _ -> KErr MBadArgs))
+              | _ -> KErr MBadArgs))
+        | _ -> KErr MBadArgs))
+  | K_reduce_argmax_complex ->
+    (match a with
+     | [] -> KErr MBadArgs
+     | v :: l ->
+       (match v with
+        | VL x ->
+          (match l with
+           | [] -> KErr MBadArgs
+           | v0 :: l0 ->
+             (match v0 with
+              | VL f ->
+                (match l0 with
+                 | [] -> KErr MBadArgs
+                 | v1 :: l1 ->
+                   (match v1 with
+                    | VL p ->
+                      (match l1 with
+                       | [] -> KErr MBadArgs
+                       | v2 :: l2 ->
+                         (match v2 with
+                          | VI lp ->
+                            (match l2 with
+                             | [] -> KErr MBadArgs
+                             | v3 :: l3 ->
+                               (match v3 with
+                                | VI ol ->
+                                  (match l3 with
+                                   | [] ->
+                                     o1 (reduce_arg_complex false x f p lp ol)
+                                   | _ :: _ -> KErr MBadArgs)
+                                | _ -> KErr MBadArgs))
+                          | _ -> KErr MBadArgs))
+                    | _ -> KErr MBadArgs))
+              | _ -> KErr MBadArgs))
+        | _ -> KErr MBadArgs))
+  | K_reduce_countnonzero_complex ->
+    (match a with
+     | [] -> KErr MBadArgs
+     | v :: l ->
+       (match v with
+        | VL x ->
+          (match l with
+           | [] -> KErr MBadArgs
+           | v0 :: l0 ->
+             (match v0 with
+              | VL f ->
+                (match l0 with
+                 | [] -> KErr MBadArgs
+                 | v1 :: l1 ->
+                   (match v1 with
+                    | VL p ->
+                      (match l1 with
+                       | [] -> KErr MBadArgs
+                       | v2 :: l2 ->
+                         (match v2 with
+                          | VI lp ->
+                            (match l2 with
+                             | [] -> KErr MBadArgs
+                             | v3 :: l3 ->
+                               (match v3 with
+                                | VI ol ->
+                                  (match l3 with
+                                   | [] ->
+                                     o1
+                                       (reduce_countnonzero_complex x f p lp
+                                         ol)
+                                   | _ :: _ -> KErr MBadArgs)
+                                | _ -> KErr MBadArgs))
+                          | _ -> KErr MBadArgs))
+                    | _ -> KErr MBadArgs))
+              | _ -> KErr MBadArgs))
+        | _ -> KErr MBadArgs))
+  | K_reduce_sum_bool_complex ->
+    (match a with
+     | [] -> KErr MBadArgs
+     | v :: l ->
+       (match v with
+        | VL x ->
+          (match l with
+           | [] -> KErr MBadArgs
+           | v0 :: l0 ->
+             (match v0 with
+              | VL f ->
+                (match l0 with
+                 | [] -> KErr MBadArgs
+                 | v1 :: l1 ->
+                   (match v1 with
+                    | VL p ->
+                      (match l1 with
+                       | [] -> KErr MBadArgs
+                       | v2 :: l2 ->
+                         (match v2 with
+                          | VI lp ->
+                            (match l2 with
+                             | [] -> KErr MBadArgs
+                             | v3 :: l3 ->
+                               (match v3 with
+                                | VI ol ->
+                                  (match l3 with
+                                   | [] ->
+                                     o1 (reduce_sum_bool_complex x f p lp ol)
+                                   | _ :: _ -> KErr MBadArgs)
+                                | _ -> KErr MBadArgs))
+                          | _ -> KErr MBadArgs))
+                    | _ -> KErr MBadArgs))
+              | _ -> KErr MBadArgs))
+        | _ -> KErr MBadArgs))
+  | K_reduce_prod_bool_complex ->
+    (match a with
+     | [] -> KErr MBadArgs
+     | v :: l ->
+       (match v with
+        | VL x ->
+          (match l with
+           | [] -> KErr MBadArgs
+           | v0 :: l0 ->
+             (match v0 with
+              | VL f ->
+                (match l0 with
+                 | [] -> KErr MBadArgs
+                 | v1 :: l1 ->
+                   (match v1 with
+                    | VL p ->
+                      (match l1 with
+                       | [] -> KErr MBadArgs
+                       | v2 :: l2 ->
+                         (match v2 with
+                          | VI lp ->
+                            (match l2 with
+                             | [] -> KErr MBadArgs
+                             | v3 :: l3 ->
+                               (match v3 with
+                                | VI ol ->
+                                  (match l3 with
+                                   | [] ->
+                                     o1 (reduce_prod_bool_complex x f p lp ol)
+                                   | _ :: _ -> KErr MBadArgs)
+                                | _ -> KErr MBadArgs))
+                          | _ -> KErr MBadArgs))
+                    | _ -> KErr MBadArgs))
+              | _ -> KErr MBadArgs))
+        | _ -> KErr MBadArgs))
+  | K_content_reduce_zeroparents ->
+    (match a with
+     | [] -> KErr MBadArgs
+     | v :: l ->
+       (match v with
+        | VL x ->
+          (match l with
+           | [] -> KErr MBadArgs
+           | v0 :: l0 ->
+             (match v0 with
+              | VI n ->
+                (match l0 with
+                 | [] -> o1 (content_reduce_zeroparents x n)
+                 | _ :: _ -> KErr MBadArgs)
               | _ -> KErr MBadArgs))
         | _ -> KErr MBadArgs))
